@@ -205,6 +205,8 @@ def machine(tier, col):  # pylint: disable=unused-argument
                 if how == "type":
                     new = {"type": "RectangularRegion", "id": old["id"], "x1": old["cx"] - old["r"] - 1, "y1": old["cy"] - old["r"] - 1,
                            "x2": old["cx"] + old["r"] + 1, "y2": old["cy"] + old["r"] + 1}
+            if any(isinstance(v, float) and v != v for v in new.values()):
+                return          # NaN (inf - inf from an infinite region): NaN != NaN would make every comparison meaningless
             self.do(["api", "updateExcludeRegion", new, anon == 0])
 
         @rule(pick=st.integers(0, 9), anon=st.integers(0, 7))
